@@ -1,0 +1,330 @@
+//! Verification hooks. Compiled only with `--cfg xray_verif`; off by default.
+//!
+//! A thread-local recorder collects one JSON event per resource action (allocation,
+//! deallocation, user call, frame, trampoline iteration, permission check, effect).
+//! Nothing is recorded unless a harness calls [`start`].
+
+use crate::builtin::generators::XGenerator;
+use crate::builtin::mapping::XMapping;
+use crate::builtin::optional::XOptional;
+use crate::builtin::sequence::XSequence;
+use crate::builtin::set::XSet;
+use crate::builtin::stack::XStack;
+use crate::root_runtime_scope::{EvaluatedValue, RootEvaluationScope};
+use crate::runtime::RTCell;
+use crate::runtime_scope::RuntimeScope;
+use crate::util::lazy_bigint::LazyBigint;
+use crate::xvalue::{ManagedXValue, XFunction, XValue};
+use crate::RootCompilationScope;
+use serde_json::{json, Value};
+use std::cell::RefCell;
+use std::rc::Rc;
+
+thread_local! {
+    static REC: RefCell<Option<Vec<Value>>> = RefCell::new(None);
+}
+
+/// start (or restart) recording on this thread
+pub fn start() {
+    let _ = REC.try_with(|r| *r.borrow_mut() = Some(Vec::new()));
+}
+
+/// stop recording and return the events recorded since `start`
+pub fn stop() -> Vec<Value> {
+    REC.try_with(|r| r.borrow_mut().take().unwrap_or_default())
+        .unwrap_or_default()
+}
+
+/// suspend recording, returning the events so far; `resume` continues with them
+pub fn pause() -> Option<Vec<Value>> {
+    REC.try_with(|r| r.borrow_mut().take()).unwrap_or(None)
+}
+
+pub fn resume(events: Option<Vec<Value>>) {
+    let _ = REC.try_with(|r| *r.borrow_mut() = events);
+}
+
+pub fn active() -> bool {
+    REC.try_with(|r| r.borrow().is_some()).unwrap_or(false)
+}
+
+/// record an event (no-op when the recorder is off)
+pub fn emit(ev: Value) {
+    let _ = REC.try_with(|r| {
+        if let Ok(mut g) = r.try_borrow_mut() {
+            if let Some(v) = g.as_mut() {
+                v.push(ev)
+            }
+        }
+    });
+}
+
+pub fn emit_with(f: impl FnOnce() -> Value) {
+    if active() {
+        emit(f())
+    }
+}
+
+fn lim(l: Option<usize>) -> Value {
+    match l {
+        None => Value::Null,
+        Some(v) => json!(v),
+    }
+}
+
+pub(crate) fn on_alloc(kind: &'static str, payload: usize, size: usize, total: usize, limit: usize) {
+    emit_with(|| json!({"ev":"Alloc","kind":kind,"payload":payload,"size":size,"total":total,"limit":limit}))
+}
+
+pub(crate) fn on_dealloc(size: usize, total: usize) {
+    emit_with(|| json!({"ev":"Dealloc","size":size,"total":total}))
+}
+
+pub(crate) fn on_ucall(template: usize) {
+    emit_with(|| json!({"ev":"UCall","tmpl":template}))
+}
+
+pub(crate) fn on_inc(calls: usize, limit: usize) {
+    emit_with(|| json!({"ev":"Inc","calls":calls,"limit":limit}))
+}
+
+pub(crate) fn on_timechk(has_deadline: bool, passed: bool) {
+    emit_with(|| json!({"ev":"TimeChk","deadline":has_deadline,"passed":passed}))
+}
+
+pub(crate) fn on_frame(template: usize, height: usize, limit: Option<usize>) {
+    emit_with(|| json!({"ev":"Frame","tmpl":template,"h":height,"limit":lim(limit)}))
+}
+
+pub(crate) fn on_frame_in(template: usize, height: usize) {
+    emit_with(|| json!({"ev":"FrameIn","tmpl":template,"h":height}))
+}
+
+pub(crate) fn on_leave(template: usize, height: usize) {
+    emit_with(|| json!({"ev":"Leave","tmpl":template,"h":height}))
+}
+
+pub(crate) fn on_tail(template: usize, rec: usize, limit: Option<usize>) {
+    emit_with(|| json!({"ev":"Tail","tmpl":template,"rec":rec,"limit":lim(limit)}))
+}
+
+pub(crate) fn on_perm(id: &'static str, allowed: bool) {
+    emit_with(|| json!({"ev":"Perm","id":id,"allowed":allowed}))
+}
+
+/// an effect site without an injectable dependency (regex compilation, sleep)
+pub(crate) fn on_effect(kind: &'static str) {
+    emit_with(|| json!({"ev":"Effect","kind":kind}))
+}
+
+// ---------------------------------------------------------------------------------------------
+// canonical dump of values
+
+fn bigint_json(i: &LazyBigint) -> Value {
+    match i {
+        LazyBigint::Short(s) => json!({"t":"int","v":s.to_string(),"repr":"S"}),
+        LazyBigint::Long(b) => json!({"t":"int","v":b.to_string(),"repr":"L"}),
+    }
+}
+
+fn seq_repr<W: 'static, R: 'static, T: 'static>(s: &XSequence<W, R, T>) -> Value {
+    fn sub<W: 'static, R: 'static, T: 'static>(v: &Rc<ManagedXValue<W, R, T>>) -> Value {
+        match &v.value {
+            XValue::Native(n) => match n.as_ref()._as_any().downcast_ref::<XSequence<W, R, T>>() {
+                Some(s) => seq_repr(s),
+                None => json!("?"),
+            },
+            _ => json!("?"),
+        }
+    }
+    match s {
+        XSequence::Empty => json!({"k":"Empty"}),
+        XSequence::Array(a) => json!({"k":"Array","n":a.len()}),
+        XSequence::Range(a, b, c) => {
+            json!({"k":"Range","start":a.to_string(),"end":b.to_string(),"step":c.to_string()})
+        }
+        XSequence::Map(inner, _) => json!({"k":"Map","of":sub(inner)}),
+        XSequence::Zip(parts) => json!({"k":"Zip","of":parts.iter().map(sub).collect::<Vec<_>>()}),
+        XSequence::Chain {
+            parts,
+            midpoint_lengths,
+        } => {
+            json!({"k":"Chain","of":parts.iter().map(sub).collect::<Vec<_>>(),"mid":midpoint_lengths})
+        }
+        XSequence::Slice(inner, start, end) => {
+            json!({"k":"Slice","of":sub(inner),"start":start,"end":end})
+        }
+        XSequence::Count => json!({"k":"Count"}),
+    }
+}
+
+pub(crate) fn dump_value<W: 'static, R: 'static, T: 'static>(
+    v: &EvaluatedValue<W, R, T>,
+    ns: &RuntimeScope<W, R, T>,
+    rt: &RTCell<W, R, T>,
+    max_elems: usize,
+    depth: usize,
+) -> Value {
+    let v = match v {
+        Err(e) => return json!({"t":"err","m":e.error}),
+        Ok(v) => v,
+    };
+    if depth > 24 {
+        return json!({"t":"deep"});
+    }
+    let d = |x: &Rc<ManagedXValue<W, R, T>>| dump_value(&Ok(x.clone()), ns, rt, max_elems, depth + 1);
+    match &v.value {
+        XValue::Int(i) => bigint_json(i),
+        XValue::Float(f) => {
+            let bits = f.to_bits();
+            json!({"t":"float","bits":bits.to_string(),"exp":(bits >> 52) & 0x7ff,"v":format!("{f:?}")})
+        }
+        XValue::String(s) => {
+            let (chars, bytes, table) = s.verif_repr();
+            json!({"t":"str","v":s.as_str(),"chars":chars,"bytes":bytes,"table":table,"len":s.len()})
+        }
+        XValue::Bool(b) => json!({"t":"bool","v":b}),
+        XValue::Function(XFunction::Native(_)) => json!({"t":"fn","native":true}),
+        XValue::Function(XFunction::UserFunction { .. }) => json!({"t":"fn","native":false}),
+        XValue::StructInstance(items) => {
+            json!({"t":"struct","v":items.iter().map(d).collect::<Vec<_>>()})
+        }
+        XValue::UnionInstance((variant, item)) => json!({"t":"union","variant":variant,"v":d(item)}),
+        XValue::Native(n) => {
+            let any = n.as_ref()._as_any();
+            if let Some(s) = any.downcast_ref::<XSequence<W, R, T>>() {
+                let len = s.verif_len();
+                let n = len.map_or(max_elems, |l| l.min(max_elems));
+                let mut items = Vec::with_capacity(n);
+                for idx in 0..n {
+                    match s.verif_get(idx, ns, rt.clone()) {
+                        Ok(item) => items.push(dump_value(&item, ns, rt, max_elems, depth + 1)),
+                        Err(viol) => {
+                            items.push(json!({"t":"violation","k":format!("{viol:?}")}));
+                            break;
+                        }
+                    }
+                }
+                json!({"t":"seq","len":len,"repr":seq_repr(s),"v":items})
+            } else if let Some(o) = any.downcast_ref::<XOptional<W, R, T>>() {
+                match &o.value {
+                    None => json!({"t":"opt","v":Value::Null}),
+                    Some(i) => json!({"t":"opt","v":d(i)}),
+                }
+            } else if let Some(s) = any.downcast_ref::<XStack<W, R, T>>() {
+                // bottom first, like to_array
+                let mut items: Vec<Value> = s.verif_items().iter().map(d).collect();
+                items.reverse();
+                json!({"t":"stack","len":s.verif_len(),"v":items})
+            } else if let Some(m) = any.downcast_ref::<XMapping<W, R, T>>() {
+                let table = m.verif_table();
+                let buckets: Vec<Value> = table
+                    .iter()
+                    .map(|(h, b)| json!({"h":h.to_string(),"n":b.len()}))
+                    .collect();
+                let entries: Vec<Value> = table
+                    .iter()
+                    .flat_map(|(h, b)| {
+                        b.iter()
+                            .map(|(k, v)| json!({"h":h.to_string(),"k":d(k),"v":d(v)}))
+                            .collect::<Vec<_>>()
+                    })
+                    .collect();
+                json!({"t":"map","len":m.verif_len(),"buckets":buckets,"entries":entries})
+            } else if let Some(m) = any.downcast_ref::<XSet<W, R, T>>() {
+                let table = m.verif_table();
+                let buckets: Vec<Value> = table
+                    .iter()
+                    .map(|(h, b)| json!({"h":h.to_string(),"n":b.len()}))
+                    .collect();
+                let entries: Vec<Value> = table
+                    .iter()
+                    .flat_map(|(h, b)| {
+                        b.iter()
+                            .map(|k| json!({"h":h.to_string(),"k":d(k)}))
+                            .collect::<Vec<_>>()
+                    })
+                    .collect();
+                json!({"t":"set","len":m.verif_len(),"buckets":buckets,"entries":entries})
+            } else if let Some(g) = any.downcast_ref::<XGenerator<W, R, T>>() {
+                json!({"t":"gen","repr":g.verif_tag()})
+            } else {
+                let mut dbg = format!("{n:?}");
+                dbg.truncate(200);
+                json!({"t":"native","dbg":dbg})
+            }
+        }
+    }
+}
+
+impl<'c, W: 'static, R: 'static, T: 'static> RootEvaluationScope<'c, W, R, T> {
+    /// canonical JSON dump of a value; lazy sequences are forced (first `max_elems` elements).
+    /// Forcing runs user code: read counters before calling this.
+    pub fn verif_dump(&self, v: &EvaluatedValue<W, R, T>, max_elems: usize) -> Value {
+        let (ns, rt) = self.verif_parts();
+        let saved = pause();
+        let ret = dump_value(v, ns, rt, max_elems, 0);
+        resume(saved);
+        ret
+    }
+}
+
+impl<W, R, T> crate::runtime::Runtime<W, R, T> {
+    pub fn verif_accounted(&self) -> usize {
+        usize::from(self.stats.borrow().size)
+    }
+    pub fn verif_ud_calls(&self) -> usize {
+        self.stats.borrow().ud_calls
+    }
+}
+
+impl<W: 'static, R: 'static, T: 'static> RootCompilationScope<W, R, T> {
+    /// static type of a top-level variable, rendered with the scope's own describer
+    pub fn verif_static_type(&self, name: &str) -> Option<String> {
+        let id = self.get_identifier(name)?;
+        let t = self.scope.verif_variable_type(&id)?;
+        Some(self.describe_type(t.as_ref()))
+    }
+
+    /// every root-scope overload: name, rendered signature (or factory description)
+    pub fn verif_signatures(&self) -> Vec<Value> {
+        let interner = self.interner.borrow();
+        self.scope
+            .verif_overloads()
+            .into_iter()
+            .map(|(name, kind, desc)| {
+                json!({"name": interner.resolve(name).unwrap_or("?"), "kind": kind, "sig": desc.to_json(&interner)})
+            })
+            .collect()
+    }
+}
+
+pub(crate) enum SigDesc {
+    Static(crate::xtype::XFuncSpec),
+    Factory(&'static str),
+}
+
+impl SigDesc {
+    fn to_json(&self, interner: &crate::root_compilation_scope::Interner) -> Value {
+        match self {
+            Self::Factory(d) => json!({"desc": d}),
+            Self::Static(spec) => {
+                let generics: Vec<String> = spec
+                    .generic_params
+                    .as_ref()
+                    .map(|g| {
+                        g.iter()
+                            .map(|i| interner.resolve(*i).unwrap_or("?").to_string())
+                            .collect()
+                    })
+                    .unwrap_or_default();
+                let params: Vec<Value> = spec
+                    .params
+                    .iter()
+                    .map(|p| json!({"type": p.type_.to_string_with_interner(interner), "required": p.required}))
+                    .collect();
+                json!({"generics": generics, "params": params, "ret": spec.ret.to_string_with_interner(interner)})
+            }
+        }
+    }
+}
